@@ -141,9 +141,17 @@ class C11(Check):
         if spec.get('codec', 'default') != 'default':
             from pbt import codecs
             kw.update(codecs.kwargs_for(spec['codec'], 'server'))
+        counts: Dict[str, int] = {}
         if spec.get('custom_classes'):
-            kw.update({'request_class': type('AppRequest', (pjrpc.Request,), {}), 'response_class': type('AppResponse', (pjrpc.Response,), {}),
-                       'batch_request': type('AppBatchRequest', (pjrpc.BatchRequest,), {}), 'batch_response': type('AppBatchResponse', (pjrpc.BatchResponse,), {})})
+            # behaviour-preserving subclasses that count how often the dispatcher instantiates them: both halves use the configured
+            # classes for the same things
+            def counting(base: Any, name: str) -> Any:
+                def __init__(self, *a: Any, **k: Any) -> None:
+                    counts[name] = counts.get(name, 0) + 1
+                    base.__init__(self, *a, **k)
+                return type(name, (base,), {'__init__': __init__})
+            kw.update({'request_class': counting(pjrpc.Request, 'AppRequest'), 'response_class': counting(pjrpc.Response, 'AppResponse'),
+                       'batch_request': counting(pjrpc.BatchRequest, 'AppBatchRequest'), 'batch_response': counting(pjrpc.BatchResponse, 'AppBatchResponse')})
         d = hm.build_dispatcher(dkind, stdreg.std_registry(regkind), **kw)
         text = docs.render(spec['text'])
         out: Dict[str, Any] = {'text': text}
@@ -163,6 +171,7 @@ class C11(Check):
             out['codes'] = list(r[1])
         out['log'] = [{'method': e['method'], 'args': e['args'], 'ctx': e['ctx']} for e in hm.RT.log]
         out['events'] = list(ev.log)
+        out['classes'] = dict(sorted(counts.items()))
         return out
 
     def _run_server(self, spec: Any) -> Outcome:
@@ -172,7 +181,7 @@ class C11(Check):
         discs: List[Disc] = []
         where = f"request={a['text'][:250]!r} mws={[m['kind'] for m in spec['middlewares']]} handlers={jg.short(spec['handlers'], 150)} mbs={spec.get('max_batch_size')}"
         for name, other in (('async', b), ('async-plain-functions', c)):
-            for key in ('raised', 'doc', 'codes', 'log', 'events'):
+            for key in ('raised', 'doc', 'codes', 'log', 'events', 'classes'):
                 x, y = a[key], other[key]
                 same = (x == y) if isinstance(x, str) or isinstance(y, str) else jg.jeq(x, y) if x is not None and y is not None else x is y
                 if not same:
